@@ -215,10 +215,41 @@ def vkey(v):
     if isinstance(v, ListV):
         return "[" + ", ".join(vkey(x) for x in v.elems) + "]"
     if isinstance(v, Clos):
-        return "|" + ",".join(render_pat(p) for p in v.params) + "| " + render(v.body)
+        caps = clos_captures(v)
+        return "|" + ",".join(render_pat(p) for p in v.params) + "| " + render(v.body) + ("[" + ", ".join(f"{k}={x}" for k, x in caps) + "]" if caps else "")
     if v is None:
         return "∅"
     return repr(v)
+
+
+def clos_captures(c):
+    from .src import walk
+    params = set()
+
+    def pnames(p):
+        if p["k"] == "PIdent":
+            params.add(p["name"])
+        for key in ("elems", "cases"):
+            for x in p.get(key, []):
+                pnames(x)
+        if "pat" in p and isinstance(p["pat"], dict):
+            pnames(p["pat"])
+        for f in p.get("fields", []):
+            pnames(f["pat"])
+    for p in c.params:
+        pnames(p)
+    out = []
+    seen = set()
+    for n in walk(c.body):
+        if n["k"] == "Path" and len(n["segs"]) == 1:
+            nm = n["segs"][0]
+            if nm in c.env and nm not in params and nm not in seen:
+                seen.add(nm)
+                val = c.env[nm]
+                if isinstance(val, Clos):
+                    continue
+                out.append((nm, vkey(val)))
+    return out
 
 
 def show_toks(toks):
@@ -299,8 +330,9 @@ def pat_strs(p):
 
 # ---------------------------------------------------------------------------- evaluator
 class Evaluator:
-    def __init__(self, repo, files, opaque=(), max_depth=MAX_DEPTH, alias=None, shallow=False):
+    def __init__(self, repo, files, opaque=(), max_depth=MAX_DEPTH, alias=None, shallow=False, transparent=()):
         self.shallow = shallow
+        self.transparent = set(transparent)
         self.alias = dict(alias or {})
         self.repo = repo
         self.files = files
@@ -625,6 +657,9 @@ class Evaluator:
         return SymObj(key, ty or ("named", "?"))
 
     def argkey(self, a):
+        if isinstance(a, SymObj) and a.path in self.decisions and self._is_enumish(a) and a.ty[0] != "opt":
+            d = self.decisions[a.path]
+            return ("true" if d else "false") if isinstance(d, bool) else str(d)
         if isinstance(a, Tag) and a.origin:
             return a.origin if a.enum in ("Option",) else a.name
         return vkey(a)
@@ -633,7 +668,7 @@ class Evaluator:
         fi = self.fn_index.get(name)
         if fi is None:
             raise Unsupported("unknown fn " + name)
-        if name in self.opaque or (self.shallow and self.depth >= 0):
+        if name in self.opaque or (self.shallow and name not in self.transparent):
             return self.summary(name, None, args, fi)
         try:
             return self.inline(fi, None, args)
@@ -677,7 +712,7 @@ class Evaluator:
         if tyname and (tyname, name) in self.method_index:
             fi = self.method_index[(tyname, name)]
             unit_enum = tyname in self.types.enums and all(x[3] == "unit" for x in self.types.enums[tyname])
-            if name in self.opaque or f"{tyname}::{name}" in self.opaque or (self.shallow and not unit_enum):
+            if name in self.opaque or f"{tyname}::{name}" in self.opaque or (self.shallow and not unit_enum and name not in self.transparent):
                 return self.summary(name, recv, args, fi)
             saved = (dict(self.decisions),)
             try:
